@@ -97,6 +97,46 @@ func ruleC17N1(r *Run) {
 					}
 				})
 			})
+			// or a comma-ok lookup of the value in a package-level table whose keys are exactly "true" and "false"
+			p.withHelpers(um, 1, func(g *ssa.Function) {
+				allInstrs(g, func(ins ssa.Instruction) {
+					lk, ok := ins.(*ssa.Lookup)
+					if !ok || !lk.CommaOk {
+						return
+					}
+					u, isU := lk.X.(*ssa.UnOp)
+					if !isU {
+						return
+					}
+					gl, isG := u.X.(*ssa.Global)
+					if !isG || gl.Pkg == nil {
+						return
+					}
+					keys := map[string]bool{}
+					if init := gl.Pkg.Func("init"); init != nil {
+						allInstrs(init, func(x ssa.Instruction) {
+							if mu, isMU := x.(*ssa.MapUpdate); isMU {
+								if hasLeaf(p.Leaves(mu.Map, provOpts{}), "global:"+strings.TrimPrefix(gl.Pkg.Pkg.Path(), modPath)+"."+gl.Name()) || canonVal(mu.Map) == ssa.Value(gl) {
+									if k, isK := mu.Key.(*ssa.Const); isK && k.Value != nil {
+										keys[k.Value.ExactString()] = true
+									}
+								} else if mm, isMM := canonVal(mu.Map).(*ssa.MakeMap); isMM && mm.Referrers() != nil {
+									for _, ref := range *mm.Referrers() {
+										if st, isSt := ref.(*ssa.Store); isSt && st.Addr == ssa.Value(gl) {
+											if k, isK := mu.Key.(*ssa.Const); isK && k.Value != nil {
+												keys[k.Value.ExactString()] = true
+											}
+										}
+									}
+								}
+							}
+						})
+					}
+					if len(keys) == 2 && keys[`"true"`] && keys[`"false"`] {
+						okTrue, okFalse = true, true
+					}
+				})
+			})
 			allInstrs(um, func(ins ssa.Instruction) {
 				if ret, ok := ins.(*ssa.Return); ok && nonNilErrReturn(ret) && true {
 					okErr = true
@@ -120,7 +160,7 @@ func ruleC17N2(r *Run) {
 	type rng struct{ lo, hi bool }
 	bounds := map[string]*rng{"CompressLevel": {}, "CompressWindowBits": {}}
 	want := map[string][2]int64{"CompressLevel": {0, 9}, "CompressWindowBits": {0, 32}}
-	allInstrs(v, func(ins ssa.Instruction) {
+	allInstrsDeep(p, v, func(ins ssa.Instruction) {
 		bo, ok := ins.(*ssa.BinOp)
 		if !ok {
 			return
@@ -164,7 +204,7 @@ func ruleC17N2(r *Run) {
 	}
 	// default level
 	okDef := false
-	for _, st := range storesIn(v, "/transport.NegotiationParams.CompressLevel") {
+	for _, st := range storesInDeep(p, v, "/transport.NegotiationParams.CompressLevel") {
 		if hasLeafPrefix(p.Leaves(st.Val, provOpts{}), "alloc:int") {
 			okDef = true
 		}
@@ -172,7 +212,7 @@ func ruleC17N2(r *Run) {
 	r.Check(name+" default level", okDef, p.pos(v.Pos()), name, "an absent level is replaced by the default")
 	// unknown values reach an error return
 	errs := 0
-	allInstrs(v, func(ins ssa.Instruction) {
+	allInstrsDeep(p, v, func(ins ssa.Instruction) {
 		if ret, ok := ins.(*ssa.Return); ok && nonNilErrReturn(ret) {
 			errs++
 		}
@@ -659,4 +699,24 @@ func ruleC17N6(r *Run) {
 	if n == 0 {
 		r.Check("hand-built key/value emissions", true, "", "", "MarshalKeyValues does not insert keys by hand (the form is derived from the struct tags)")
 	}
+}
+
+// allInstrsDeep: the instructions of fn and of the unexported methods of the same type it calls (Validate split into
+// validateEncoding and validateCompress).
+func allInstrsDeep(p *Prog, fn *ssa.Function, f func(ssa.Instruction)) {
+	p.withHelpers(fn, 1, func(g *ssa.Function) {
+		if g == fn || (g.Parent() == nil && recvTypeName(g) == recvTypeName(fn)) || topFunc(g) == fn {
+			allInstrs(g, f)
+		}
+	})
+}
+
+func storesInDeep(p *Prog, fn *ssa.Function, fk string) []*ssa.Store {
+	var out []*ssa.Store
+	p.withHelpers(fn, 1, func(g *ssa.Function) {
+		if g == fn || (g.Parent() == nil && recvTypeName(g) == recvTypeName(fn)) || topFunc(g) == fn {
+			out = append(out, storesIn(g, fk)...)
+		}
+	})
+	return out
 }
